@@ -463,6 +463,62 @@ func kindTableSet(v ssa.Value) (uint64, bool) {
 	return set, true
 }
 
+// fieldSetOnlyAtConstruction: field idx of the struct type nt is stored to, anywhere in the module, only
+// directly on a freshly allocated object of the function that stores (the composite literal that builds
+// it): a function that receives a pointer to such an object cannot change the field.
+func (w *World) fieldSetOnlyAtConstruction(nt *types.Named, idx int) bool {
+	key := fmt.Sprintf("fieldctor/%p/%d", nt, idx)
+	w.memoMu.Lock()
+	if w.postMemo == nil {
+		w.postMemo = map[string]interface{}{}
+	}
+	v, have := w.postMemo[key]
+	w.memoMu.Unlock()
+	if have {
+		return v.(bool)
+	}
+	ok := true
+	for _, rel := range []string{"", "parser", "lexer", "ast"} {
+		for _, f := range w.Funcs(rel) {
+			fn := w.SSAFunc(f)
+			if fn == nil {
+				continue
+			}
+			for _, g := range append([]*ssa.Function{fn}, allAnon(fn)...) {
+				for _, b := range g.Blocks {
+					for _, ins := range b.Instrs {
+						fa, isFA := ins.(*ssa.FieldAddr)
+						if !isFA || fa.Field != idx {
+							continue
+						}
+						pt, isPtr := fa.X.Type().Underlying().(*types.Pointer)
+						if !isPtr || !types.Identical(pt.Elem(), nt) {
+							continue
+						}
+						for _, ref := range *fa.Referrers() {
+							switch r := ref.(type) {
+							case *ssa.Store:
+								if r.Addr != ssa.Value(fa) {
+									ok = false // the field's address is stored somewhere
+								} else if _, fresh := fa.X.(*ssa.Alloc); !fresh {
+									ok = false
+								}
+							case *ssa.UnOp, *ssa.DebugRef:
+							default:
+								ok = false // the address of the field escapes
+							}
+						}
+					}
+				}
+			}
+		}
+	}
+	w.memoMu.Lock()
+	w.postMemo[key] = ok
+	w.memoMu.Unlock()
+	return ok
+}
+
 // ---- canonical keys ---------------------------------------------------------
 
 // pureCallName returns a name for calls whose result depends only on their
@@ -2608,6 +2664,68 @@ func (lg *ledger) callerFacts() []diffC {
 						off int64
 					}{lg.key(prm), ao}
 				}
+			}
+		}
+		// a pointer to a struct built at the call site whose fields nobody writes after construction: what the
+		// callee reads through the parameter is what the literal stored (args := &callArgs{node: node}; args.bind(...))
+		for i, prm := range lg.fn.Params {
+			al, isAlloc := args[i].(*ssa.Alloc)
+			if !isAlloc {
+				continue
+			}
+			pt, isPtr := al.Type().Underlying().(*types.Pointer)
+			if !isPtr {
+				continue
+			}
+			nt, isNamed := pt.Elem().(*types.Named)
+			sty, isStruct := pt.Elem().Underlying().(*types.Struct)
+			if !isNamed || !isStruct {
+				continue
+			}
+			for fi := 0; fi < sty.NumFields(); fi++ {
+				if !lg.w.fieldSetOnlyAtConstruction(nt, fi) {
+					continue
+				}
+				var init ssa.Value
+				var initAt *ssa.Store
+				n := 0
+				for _, ref := range *al.Referrers() {
+					fa, isFA := ref.(*ssa.FieldAddr)
+					if !isFA || fa.Field != fi {
+						continue
+					}
+					for _, r2 := range *fa.Referrers() {
+						if sto, isSt := r2.(*ssa.Store); isSt && sto.Addr == ssa.Value(fa) {
+							init, initAt = sto.Val, sto
+							n++
+						}
+					}
+				}
+				if n != 1 || init == nil {
+					continue
+				}
+				// the store comes before the call
+				if initAt.Block() == st.Block() {
+					before := false
+					for _, ins := range st.Block().Instrs {
+						if ins == ssa.Instruction(initAt) {
+							before = true
+						}
+						if ins == st.(ssa.Instruction) {
+							break
+						}
+					}
+					if !before {
+						continue
+					}
+				} else if !initAt.Block().Dominates(st.Block()) {
+					continue
+				}
+				ik := l2.key(init)
+				if ik == "" || strings.HasPrefix(ik, "const(") || ik == "nil" {
+					continue
+				}
+				reps = append(reps, rep{ik, fmt.Sprintf("load(%s.%d)", lg.key(prm), fi)})
 			}
 		}
 		sort.Slice(reps, func(i, j int) bool { return len(reps[i].from) > len(reps[j].from) })
